@@ -385,7 +385,7 @@ type candShard struct {
 var (
 	visited     map[khash]struct{}     // states of the running search: 128-bit hashes of the state keys (written between levels only)
 	allStates   = map[khash]struct{}{} // union over the searches
-	opCount     []int64 // executions per operation (last position of a case)
+	opCount     []int64                // executions per operation (last position of a case)
 	tokAccepted []int64
 	tokRejected []int64
 	gstats      transStats
@@ -678,7 +678,7 @@ func main() {
 		}
 	}
 	fullDepth, maxDepth, seedDepth := 3, 4, 3
-	asyncAll, asyncRed, asyncSeed := 2, 2, 1 // coalesced rounds from every state of depth <= 1 (seeded: from the seeds)
+	asyncAll, asyncRed, asyncSeed := 2, 2, 1             // coalesced rounds from every state of depth <= 1 (seeded: from the seeds)
 	if md := os.Getenv("VERIF_C17_MAXDEPTH"); md != "" { // development aid
 		fmt.Sscan(md, &maxDepth)
 		if fullDepth > maxDepth {
